@@ -457,4 +457,60 @@ def rule_dp8(ctx: Ctx) -> RuleResult:
     return r
 
 
-RULES = [rule_fw2, rule_dp6, rule_dp8]
+def rule_so1(ctx: Ctx) -> RuleResult:
+    """sort: to_list -> sorted(items, key=key, reverse=reverse) -> to_deque(extend=True)."""
+    r = RuleResult("SO-1", "sort delegates to one stable sorted(items, key=key, reverse=reverse) between to_list and to_deque(extend=True)")
+    rel = "rxsci/data/sort.py"
+    m, fn = ctx.function(rel, "sort")
+    r.instances += 1
+    pipes = [n for n in ast.walk(fn) if isinstance(n, ast.Call) and isinstance(n.func, ast.Attribute) and n.func.attr == "pipe"]
+    if len(pipes) != 1:
+        raise AnalysisError("sort: expected one source.pipe(...)")
+    stages = pipes[0].args
+    names = []
+    for a in stages:
+        dn = dotted_name(a.func) if isinstance(a, ast.Call) else None
+        ref = ctx.program.resolve_dotted(m, dn) if dn else ("unknown", "?")
+        names.append("%s.%s" % (ref[1].name, ref[2].name) if ref[0] == "def" else ast.unparse(a))
+    ok = names == ["rxsci.data.to_list.to_list", "rxsci.operators.map.map", "rxsci.data.to_deque.to_deque"]
+    r.ob(ok, lambda: Finding("SO-1", "%s::sort{stages}" % rel, m.where(fn), "sort must be to_list -> map(sorted) -> to_deque; stages are %s" % names))
+    if ok:
+        dq = stages[2]
+        kws = {k.arg: ast.unparse(k.value) for k in dq.keywords}
+        r.ob(kws.get("extend") == "True", lambda: Finding("SO-1", "%s::sort{extend}" % rel, m.where(dq), "to_deque must be called with extend=True so that the sorted list is flattened in order"))
+        cb = stages[1].args[0] if stages[1].args else None
+        cbfn = _callable_def(ctx, m, cb, fn) if cb is not None else None
+        if cbfn is None:
+            raise AnalysisError("sort: the mapped sorting function is not a local function or lambda")
+        params = m.scopes[cbfn].params
+        for p in ctx.fn_paths(m, cbfn):
+            r.paths += 1
+            r.groups.add(("sort", len(r.groups)))
+            v = p.value
+            calls = [x for x in subterms(v)] if v is not None else []
+            srt = [x for x in calls if x[0] == "call" and x[1] == ("builtin", "sorted")]
+            inplace = [e for e in p.trace if e.k == "mutate" and e.method in ("sort", "reverse")]
+            rev_ops = [x for x in calls if (x[0] == "call" and x[1] == ("builtin", "reversed")) or
+                       (x[0] == "sub" and x[2][0] == "slice" and len(x[2]) > 3 and x[2][3] == ("const", -1))] + \
+                      [e for e in inplace if e.method == "reverse"]
+            good = False
+            why = "no call of sorted() on the item"
+            if len(srt) == 1 and not inplace:
+                args = srt[0][2]
+                kws = {a[1]: a[2] for a in args if a[0] == "kw"}
+                pos = [a for a in args if a[0] != "kw"]
+                good = len(pos) == 1 and pos[0] == ("arg", params[0]) and kws.get("key", ("",))[0] == "param" and kws["key"][1] == "key" \
+                    and kws.get("reverse", ("",))[0] == "param" and kws["reverse"][1] == "reverse"
+                why = "sorted is called as %s" % show(srt[0])
+            elif inplace:
+                why = "the list is sorted in place (%s)" % "; ".join(e.brief() for e in inplace)
+            if rev_ops:
+                good = False
+                why += "; the order is reversed after sorting, which reverses equal-key items (not a stable descending sort)"
+            r.ob(good, lambda why=why: Finding("SO-1", "%s::sort{sorted}" % rel, m.where(cbfn),
+                                               "the items must be ordered by sorted(items, key=key, reverse=reverse) (stable for both directions): %s" % why, trace_of(p)))
+    r.require_instances(1)
+    return r
+
+
+RULES = [rule_fw2, rule_dp6, rule_dp8, rule_so1]
